@@ -201,7 +201,14 @@ func main() {
 	knownSeen := map[string]int{}
 	var unknown []sim.ViolationRec
 	var notRepro []string
+	confirmed := map[string]int{}
 	for _, v := range agg.Violations {
+		// every worker reports each class once; three confirmed instances per class are enough (a replay can
+		// be as expensive as the run that found it)
+		class := v.Violation.Invariant + "|" + v.Violation.Signature
+		if confirmed[class] >= 3 {
+			continue
+		}
 		// confirm in a fresh process: same violation, same event-log hash
 		res, err := replayOnce(*bin, v.Replay)
 		if err != nil {
@@ -219,6 +226,7 @@ func main() {
 			notRepro = append(notRepro, nr)
 			continue
 		}
+		confirmed[class]++
 		if f := isKnown(v.Violation); f != nil {
 			knownSeen[f.Invariant+"|"+f.Signature]++
 			continue
